@@ -2430,7 +2430,7 @@ class t2data(object):
                     g['rate'] = gen.gx
                     if gen.type == 'MASD': injection = False
                     else:
-                        injection = gen.gx > 0. or \
+                        injection = (gen.gx is not None and gen.gx > 0.) or \
                                     (gen.time and any([r > 0. for r in gen.rate]))
                     if injection:
                         g['component'] = mass_component[gen.type]
